@@ -67,6 +67,39 @@ Definition split_to (mol split : vec) : vec * vec :=
 Definition mix_and_split (n : nat) (ins : list vec) (split : vec) : vec * vec :=
   split_to (vsum n ins) split.
 
+(* Stream.split_to when the second outlet is defined on another property package with m chemicals:
+   s2.empty(); s2._imol[CASs] = values for the non-zero values.  pos_i = Some j: chemical i of the feed's package is
+   chemical j of the outlet's package; None: the outlet's package lacks it (the lookup of the whole tuple fails
+   after the outlet was emptied).  The first outlet of mix_and_split is the mixed stream itself (same package). *)
+Fixpoint other_lookup (pos : list (option nat)) (vals : vec) : bool :=     (* every non-zero value has a place *)
+  match pos, vals with
+  | p :: pos', x :: vals' =>
+    (qzerob x || match p with Some _ => true | None => false end) && other_lookup pos' vals'
+  | _, _ => true
+  end.
+
+Fixpoint other_put (v : vec) (pos : list (option nat)) (vals : vec) : vec :=
+  match pos, vals with
+  | p :: pos', x :: vals' =>
+    match p with
+    | Some j => other_put (if qzerob x then v else upd v j x) pos' vals'
+    | None => other_put v pos' vals'
+    end
+  | _, _ => v
+  end.
+
+Record osplit := mkO { o_top : vec; o_bot : vec; o_err : option err }.
+
+Definition mix_and_split_other (n : nat) (ins : list vec) (split : vec) (m : nat) (pos : list (option nat)) : osplit :=
+  let '(values, dummy) := split_to (vsum n ins) split in
+  if other_lookup pos dummy then mkO values (other_put (vzero m) pos dummy) None
+  else mkO values (vzero m) (Some EKey).
+
+(* mix_and_split_with_moisture_content with the permeate on another package in which the moisture chemical
+   has the same index w (e.g. a package that appends chemicals) *)
+Definition osplit_eqb (o : osplit) (top bot : vec) (e : option err) : bool :=
+  vapproxb (o_top o) top && vapproxb (o_bot o) bot && opt_eqb err_eqb (o_err o) e.
+
 (* ---------- adjust_moisture_content ---------- *)
 Record strm := mkS { liq : vec; oth : vec }.
 Definition total (s : strm) : vec := vadd (liq s) (oth s).
@@ -116,6 +149,17 @@ Definition mix_and_split_with_moisture (n : nat) (mws : vec) (ins : list vec) (s
            (w : nat) (mc : Q) (by_mass : bool) (mwc : Q) (strict : option bool) : mres :=
   let '(top, bottom) := mix_and_split n ins split in
   adjust_moisture mws (single top) (single bottom) w mc by_mass mwc strict.
+
+(* ... with the permeate on another package in which the moisture chemical keeps its index w
+   (e.g. a package that appends chemicals); a failed lookup in split_to propagates before the adjustment *)
+Definition mix_and_split_with_moisture_other (n : nat) (mws : vec) (ins : list vec) (split : vec)
+           (m : nat) (pos : list (option nat))
+           (w : nat) (mc : Q) (by_mass : bool) (mwc : Q) (strict : option bool) : mres :=
+  let o := mix_and_split_other n ins split m pos in
+  match o_err o with
+  | Some e => mkM (single (o_top o)) (single (o_bot o)) (Some e)
+  | None => adjust_moisture mws (single (o_top o)) (single (o_bot o)) w mc by_mass mwc strict
+  end.
 
 (* ---------- phase_split ---------- *)
 Definition phase_split (rows : list vec) (outs0 : list vec) : res (list vec) :=
@@ -231,15 +275,54 @@ Definition compute_phase_fraction_2N (z1 z2 K1 K2 : Q) : Q :=
   let z1_z2 := z1 + z2 in let K1z1_K2z2 := K1z1 + K2z2 in
   (- K1z1_K2z2 + z1_z2) / (K1K2z1 + K1K2z2 - K1z2 - K1z1_K2z2 - K2z1 + z1_z2).
 
-Definition eps9 : Q := 1 # 1000000000.
+(* the float constants of the source as exact rationals: 1.0 + 1e-9, 1.0 - 1e-9, 1e-16, 1 - 1e-16 *)
+Definition one_plus : Q := 281474976992131 # 281474976710656.
+Definition one_minus : Q := 9007199245733793 # 9007199254740992.
+Definition x_lo : Q := 2028240960365167 # 20282409603651670423947251286016.
+Definition x_hi : Q := 9007199254740991 # 9007199254740992.
+
+Definition all_le (Ks : vec) (c : Q) : bool := forallb (fun k => qleb k c) Ks.     (* Ks.max() <= c *)
+Definition all_ge (Ks : vec) (c : Q) : bool := forallb (fun k => qleb c k) Ks.     (* Ks.min() >= c *)
+
 (* phase_fraction(zs, Ks) for N = 2, za = zb = 0 *)
 Definition binary_phase_fraction_2 (z1 z2 K1 K2 : Q) : res Q :=
-  if qleb (Qmax K1 K2) (1 + eps9) then Ok 1
-  else if qleb (1 - eps9) (Qmin K1 K2) then Ok 0
+  if all_le [K1; K2] one_plus then Ok 1
+  else if all_ge [K1; K2] one_minus then Ok 0
   else
     let d := K1 * K2 * z1 + K1 * K2 * z2 - K1 * z2 - (K1 * z1 + K2 * z2) - K2 * z1 + (z1 + z2) in
     if qzerob d then Err EZeroDiv
     else Ok (as_valid_fraction (compute_phase_fraction_2N z1 z2 K1 K2)).
+
+(* solve_phase_fraction_Rashford_Rice(zs, Ks, guess, za, zb): the in-repository part (early exits on the range of
+   K guarded by the forced fractions, end points of the bracket, sign tests on the residual); flx.find_bracket +
+   flx.IQ_interpolation (or the mid point of a tiny bracket) is the oracle value [root] *)
+Definition rr_solve (root : Q) (zs Ks : vec) (za zb : Q) : Q :=
+  if all_le Ks one_plus && qzerob za then 0 else
+  if all_ge Ks one_minus && qzerob zb then 1 else
+  let x0 := if qzerob za then 0 else x_lo in
+  let x1 := if qzerob zb then 1 else x_hi in
+  let y0 := rr_objective x0 zs Ks za zb in
+  let y1 := rr_objective x1 zs Ks za zb in
+  if qltb y1 y0 && qltb 0 y1 then 1 else
+  if qltb y0 y1 && qltb 0 y0 then 0 else
+  if qltb y0 y1 && qltb y1 0 then 1 else
+  if qltb y1 y0 && qltb y0 0 then 0 else
+  root.
+
+(* phase_fraction(zs, Ks, guess, za, zb) *)
+Definition binary_phase_fraction (root : Q) (zs Ks : vec) (za zb : Q) : res Q :=
+  if negb (qzerob za) || negb (qzerob zb) || Nat.ltb 2 (length zs)
+  then Ok (as_valid_fraction (rr_solve root zs Ks za zb))
+  else if all_le Ks one_plus then Ok 1
+  else if all_ge Ks one_minus then Ok 0
+  else match zs, Ks with
+       | [z1; z2], [K1; K2] => binary_phase_fraction_2 z1 z2 K1 K2
+       | _, _ => Err EValue
+       end.
+
+(* the solver as partition sees it: [rootf] is the numeric root finder *)
+Definition pf_real (rootf : vec -> vec -> Q -> Q -> Q) (zs Ks : vec) (za zb : Q) : Q :=
+  match binary_phase_fraction (rootf zs Ks za zb) zs Ks za zb with Ok p => p | Err _ => 0 end.
 
 (* ---------- lle / vle wrappers ---------- *)
 Record eqres := mkE { e_top : vec; e_bot : vec; e_err : option err }.
